@@ -49,6 +49,11 @@ class Check:
         self.rule = ""
         self.findings = load_findings(pid)
         os.makedirs(os.path.join(REPLAYS, pid), exist_ok=True)
+        for f in os.listdir(os.path.join(REPLAYS, pid)):          # replays of earlier runs are stale
+            try:
+                os.remove(os.path.join(REPLAYS, pid, f))
+            except OSError:
+                pass
 
     # ---------------------------------------------------------------- design models
     def add_model(self, res, expect_violation=None, label=None):
